@@ -81,7 +81,8 @@ def run (st : St) (cmd : String) (a : Args) : Except String (St × String) := do
   | "rig.call" =>
     let cfg ← parseCfg a
     let c ← parseCall a
-    let out := rigStep cfg st.model c
+    let late := (get a "late") == some "1"
+    let out := if late then rigStepLate cfg st.model c else rigStep cfg st.model c
     pure ({ st with model := out.1 }, showOut out.2)
   | _ => throw s!"unknown command {cmd}"
 
